@@ -213,6 +213,7 @@ func checkC25(c fileSet) pbt.Result {
 			return pbt.Fail("line %q does not end with the source file comment", line)
 		}
 		text, file := line[:k], line[k+5:]
+		full := text // with its modifiers: this is what has to parse
 		if filepath.Base(file) != filepath.Base(p.File) {
 			return pbt.Fail("line %q names file %q, the combinator comes from %q", line, file, p.File)
 		}
@@ -233,7 +234,7 @@ func checkC25(c fileSet) pbt.Result {
 				continue // finding F11: a type application inside a field loses its parentheses in the listing
 			}
 		}
-		src := text + ";"
+		src := full + ";"
 		if p.M.IsFunc {
 			src = "---functions---\n" + src
 		}
